@@ -33,6 +33,7 @@ def signErrStr : SignErr → String
   | .issuerFingerprint => "err:issuer-fingerprint" | .selfSignedNotCA => "err:self-not-ca"
   | .invalid e => "err:invalid:" ++ invStr e | .unknownVersion => "err:unknown-version" | .marshal => "err:marshal"
   | .signer => "err:signer" | .normalize => "err:normalize" | .emptySignature => "err:empty-signature"
+  | .tooLarge => "err:invalid:too-large"
 
 /-- same multiset of prefixes (lists are short). -/
 def sameNets (a b : List Prefix) : Bool := a.length == b.length && a.all (b.contains ·) && b.all (a.contains ·)
@@ -87,7 +88,7 @@ def step (s : Unit) (args : List String) (impl : String) : Unit × Out :=
             checkSig := fun x _ => if x.isCA && !t.isCA then true else keyok }
         let E : SignEnv :=
           { K := K, tbsBytes := fun _ => if marshalok == "1" then some [0] else none,
-            sign := fun _ => some [1], normalize := fun b => some b }
+            sign := fun _ => some [1], normalize := fun b => some b, tooLarge := fun _ => false }
         let m := match sign E (signer.map (·.1)) kc (keyparses == "1") t with
           | .error e => signErrStr e
           | .ok c =>
